@@ -4,8 +4,8 @@ use crate::wal::block::Block;
 #[cfg(target_os = "linux")]
 use crate::wal::block::Metadata;
 use crate::wal::config::{
-    DEFAULT_BLOCK_SIZE, FsyncSchedule, MAX_BATCH_BYTES, MAX_BATCH_ENTRIES, PREFIX_META_SIZE,
-    debug_print,
+    DEFAULT_BLOCK_SIZE, FsyncSchedule, MAX_ALLOC, MAX_BATCH_BYTES, MAX_BATCH_ENTRIES,
+    PREFIX_META_SIZE, debug_print,
 };
 #[cfg(target_os = "linux")]
 use crate::wal::config::{USE_FD_BACKEND, checksum64};
@@ -68,6 +68,12 @@ impl Writer {
         })?;
 
         let need = (PREFIX_META_SIZE as u64) + (data.len() as u64);
+        // Reject entries no block can hold *before* sealing the current block: failing in the
+        // allocator after the seal would leave the writer on a block that readers already
+        // treat as sealed.
+        if need > MAX_ALLOC {
+            return Err(oversized_entry_error());
+        }
         if *cur + need > block.limit {
             debug_print!(
                 "[writer] sealing: col={}, block_id={}, used={}, need={}, limit={}",
@@ -162,6 +168,13 @@ impl Writer {
                 std::io::ErrorKind::InvalidInput,
                 "batch exceeds 10GB limit",
             ));
+        }
+
+        if batch
+            .iter()
+            .any(|data| (PREFIX_META_SIZE as u64) + (data.len() as u64) > MAX_ALLOC)
+        {
+            return Err(oversized_entry_error());
         }
 
         if batch.is_empty() {
@@ -526,6 +539,13 @@ impl Writer {
             }
         }
     }
+}
+
+fn oversized_entry_error() -> std::io::Error {
+    std::io::Error::new(
+        std::io::ErrorKind::InvalidInput,
+        "invalid allocation size, a single entry can't be more than 1gb",
+    )
 }
 
 struct BatchRevertInfo {
